@@ -10,7 +10,7 @@ from mc.engine import Acc
 
 LEVEL = 'exploration'
 RULE = ('complete enumeration: every index tuple in {0..4}^3 and {0..4}^4; every Dirac-algebra relation for every '
-        'mu,nu; every Grid tag + unknown tags against an independent Kronecker-product construction; K_n for '
+        'mu,nu; every Grid tag + unknown tags (fixed probes and, from every known tag, case variants, padded / cut forms, Minus-prefixed names) against an independent Kronecker-product construction; K_n for '
         'n=0..6(10) x 40(120) arguments in (0.05,20) against -(K_{n-1}+K_{n+1})/2 and central differences; every '
         're-exported special function x differentiable argument position x argument grid against Richardson central '
         'differences of scipy.  Non-trivial = every case except tuples with repeated indices inside the domain '
@@ -238,13 +238,28 @@ def run_case(case):
                 acc.ok(('tag', tag), True, 'tag')
             else:
                 acc.fail('tags:wrong:' + tag, sub, 'Grid_gamma(%r) =\n%s\nexpected\n%s' % (tag, got, exp))
-        for bad in ['gamma5', '', 'SigmaTX', 'GammaXGammaY', 'identity', None, 5, 'Gamma5 ']:
+        # unknown tags: fixed probes, and for every known tag its case variants, padded / cut forms and Grid's names of the
+        # negated structures ('Minus' + tag).  An unknown tag is refused (any exception); a library that learns the negated names
+        # may instead return exactly the negated matrix - never the un-negated one.
+        table = _tag_table()
+        probes = [('gamma5', None), ('', None), ('SigmaTX', None), ('GammaXGammaY', None), ('identity', None), (None, None), (5, None), ('Gamma5 ', None),
+                  (b'Gamma5', None), (('Gamma5',), None), ('Minus', None), ('MinusMinusGamma5', None)]
+        for tag in table:
+            probes += [(tag.lower(), None), (tag.upper(), None), (' ' + tag, None), (tag + ' ', None), (tag[:-1], None), (tag[1:], None), (tag + 'X', None),
+                       ('Minus' + tag, -table[tag]), ('-' + tag, -table[tag]), ('minus' + tag, None)]
+        for bad, allowed in probes:
+            if isinstance(bad, str) and bad in table:
+                continue
             sub = dict(case, tag=repr(bad))
             try:
                 got = pe.dirac.Grid_gamma(bad)
-                acc.fail('tags:unknown-accepted', sub, 'unknown tag %r returned a matrix' % (bad,))
-            except ValueError:
+            except Exception:
                 acc.ok(('badtag', repr(bad)), True, 'unknown-tag-rejected')
+                continue
+            if allowed is not None and np.shape(got) == (4, 4) and np.array_equal(np.asarray(got), allowed):
+                acc.ok(('badtag', repr(bad)), True, 'negated-name-understood')
+            else:
+                acc.fail('tags:unknown-accepted', sub, 'unknown tag %r returned a matrix%s' % (bad, '' if allowed is None else ' that is not the negated structure'))
         acc.sample({'kind': 'tags', 'tag': 'SigmaYZ', 'expected': '0.5*[gammaY,gammaZ] from Kronecker construction'})
     elif k == 'tags-kept':
         # call history: all named matrices are requested first and kept, then compared - a later call must not change an earlier
